@@ -39,7 +39,7 @@ inductive Step : State → State → Prop
   | reuse (s p) : s.pc p = .checking → linkerOK s p = true → Step s (setPc s p .running)
   | startBuild (s p) : s.pc p = .checking → linkerOK s p = false →
       Step s (setPc { s with bin := .part (s.ver p), stamp := none } p .building)
-      -- go build -o overwrites the binary; an old stamp no longer matches its size
+      -- PatchLinker removes the version file and the binary, then go build -o writes the new binary
   | finishBuild (s p) : s.pc p = .building → Step s (setPc { s with bin := .complete (s.ver p) } p .built)
   | writeStamp (s p) : s.pc p = .built → Step s (setPc { s with stamp := some (s.ver p) } p .stamped)
   | toRun (s p) : s.pc p = .stamped → Step s (setPc s p .running)
